@@ -191,8 +191,16 @@ def run_cases(ctx, gen_case, oracle, examples, free=6, splits=8,
         try:
             test()
             break
-        except Violation:
+        except (Violation, hypothesis.errors.Flaky) as exc:
+            # Flaky: the tested code answered differently when Hypothesis
+            # re-ran the failing example (e.g. hash-order dependence); the
+            # violation recorded at its first occurrence stands
+            if 'fail' not in last:
+                raise
             key, rec = last['fail']
+            if not isinstance(exc, Violation):
+                rec['detail'] = dict(rec.get('detail') or {},
+                                     nondeterministic_on_rerun=True)
             skip.add(key)
             ctx.stats.violations.append(rec)
 
@@ -464,9 +472,27 @@ def loser_status(ctx, svc, snap, reqs, race, order, n):
     # can have seen (the winners completed before each of those points)
     my_points = [i for i, (name, _k, _d) in enumerate(race.points)
                  if name == n]
+    # first state-changing transaction of every other request
+    first_write = {}
+    prevd = None
+    for i, (name, kind, d) in enumerate(race.points):
+        if d is None:
+            continue
+        if kind == 'txn-end' and prevd is not None and name != n and \
+                name not in first_write and \
+                sched.noids(d) != sched.noids(prevd):
+            first_write[name] = i
+        prevd = d
     prefixes = []
     for i in my_points:
         pre = [w for w in order if ends.get(w, 1 << 30) < i]
+        begun = {w for w in order if first_write.get(w, 1 << 30) < i}
+        if begun != set(pre):
+            # some winner had committed part (or all) of its work without
+            # having finished: that state cannot be rebuilt by serial replay
+            ctx.stats.count('loser analysis skipped (winner partly '
+                            'committed)')
+            return
         if pre not in prefixes:
             prefixes.append(pre)
     if done_before not in prefixes:
